@@ -28,6 +28,79 @@ class Unsupported(Exception):
     pass
 
 
+class RealCodeRaised(Exception):
+    """The real ginjax code raised on an in-domain configuration, and did so again when the same
+    entry point was called eagerly (un-traced) on seeded concrete data: a reproduced violation."""
+
+    def __init__(self, exc, where):
+        super().__init__(f"{type(exc).__name__}: {exc}")
+        self.exc_type = type(exc).__name__
+        self.where = where
+
+
+TRACING = [0]  # depth of active traces of real code (an exception seen only while tracing is inconclusive)
+
+
+def real_code_frame(exc):
+    """'file:line in func' of the innermost ginjax frame of exc's traceback when that frame lies below
+    every harness frame (i.e. the real code, not the harness, raised), else None."""
+    import os
+    import traceback
+    try:
+        import ginjax
+        gdir = os.path.dirname(os.path.realpath(ginjax.__file__))
+    except Exception:  # noqa: BLE001
+        return None
+    here = os.path.dirname(os.path.dirname(os.path.realpath(__file__)))
+    found = None
+    for fr in traceback.extract_tb(exc.__traceback__):
+        fn = os.path.realpath(fr.filename)
+        if fn.startswith(gdir + os.sep):
+            found = f"{os.path.relpath(fn, gdir)}:{fr.lineno} in {fr.name}"
+        elif fn.startswith(here + os.sep):
+            found = None
+    return found
+
+
+def trace_real(wrapped, placeholders, tracer=None):
+    """jax.make_jaxpr (or `tracer`) of real code.  If the real code raises, the same entry point is
+    called eagerly on seeded concrete arrays; an exception of the same type from the real code there
+    is a reproduced violation (RealCodeRaised).  Anything else propagates (inconclusive)."""
+    TRACING[0] += 1
+    try:
+        if tracer is not None:
+            return tracer(wrapped, placeholders)
+        return jax.make_jaxpr(wrapped, return_shape=True)(*placeholders)
+    except (Unsupported, RealCodeRaised):
+        raise
+    except Exception as e:  # noqa: BLE001
+        where = real_code_frame(e)
+        try:
+            e._seen_while_tracing = True
+        except Exception:  # noqa: BLE001
+            pass
+        if where is None:
+            raise
+        rng = np.random.default_rng(0)
+
+        def conc(p):
+            if hasattr(p, "dtype") and hasattr(p, "shape") and jnp.issubdtype(p.dtype, jnp.floating):
+                return jnp.asarray(rng.normal(size=p.shape).astype(np.float32)).astype(p.dtype)
+            return p
+        try:
+            TRACING[0] -= 1
+            try:
+                wrapped(*jax.tree_util.tree_map(conc, list(placeholders)))
+            finally:
+                TRACING[0] += 1
+        except Exception as e2:  # noqa: BLE001
+            if type(e2) is type(e) and real_code_frame(e2) is not None:
+                raise RealCodeRaised(e2, real_code_frame(e2)) from e2
+        raise
+    finally:
+        TRACING[0] -= 1
+
+
 STATS = collections.Counter()
 CUSTOM_RULES = {}  # primitive name -> fn(ins, params) -> list of outs
 _XVAL_DONE = set()
@@ -734,7 +807,7 @@ def sym_call(fn, *args, static_out=None):
         return fn(*a)
 
     placeholders = [_placeholder(v) for v in dyn_vals]
-    cj, out_shape = jax.make_jaxpr(wrapped, return_shape=True)(*placeholders)
+    cj, out_shape = trace_real(wrapped, placeholders)
     STATS["jaxprs_traced"] += 1
     STATS["jaxpr_eqns_total"] += count_eqns(cj.jaxpr)
     outs = run_jaxpr(cj.jaxpr, list(cj.consts), dyn_vals)
@@ -771,7 +844,7 @@ class Traced:
                 ls[i] = d
             return fn(*jax.tree_util.tree_unflatten(self.treedef, ls))
 
-        self.cj, self.out_shape = jax.make_jaxpr(wrapped, return_shape=True)(*[_placeholder(v) for v in dyn_vals])
+        self.cj, self.out_shape = trace_real(wrapped, [_placeholder(v) for v in dyn_vals])
         self.shapes = [tuple(np.shape(v.a if is_sym(v) else v)) for v in dyn_vals]
         STATS["jaxprs_traced"] += 1
         STATS["jaxpr_eqns_total"] += count_eqns(self.cj.jaxpr)
